@@ -136,7 +136,13 @@ def build(layout, system, mom, rng, extras=False):
         # the usual user-side construction: ak.zip of columns under their (momentum) spellings, named record, vector behavior attached;
         # unlike vector.zip / vector.Array the field names are NOT normalised to the geometric ones
         import vector.backends.awkward as VA
-        cols = {key(n): ak.Array(struct_map(struct, lambda e, n=n: e[n])) for n in names}
+        rkey = key
+        if mom and len(system) == 3:
+            # every temporal spelling is used by some system: E / e / energy and M / m / mass in turn
+            idx = (["xy", "rhophi"].index(system[0]) * 3 + ["z", "theta", "eta"].index(system[1])) % 3
+            tsp = {"t": ["E", "e", "energy"][idx], "tau": ["M", "m", "mass"][idx]}
+            rkey = lambda n: tsp.get(n, MOM.get(n, n))
+        cols = {rkey(n): ak.Array(struct_map(struct, lambda e, n=n: e[n])) for n in names}
         if extras:
             cols["charge"] = ak.Array(struct_map(struct, lambda e: int(round(e[names[0]] * 7)) % 5 - 2))
             cols["weight"] = ak.Array(struct_map(struct, lambda e: e[names[1]] * 0.5))
